@@ -331,12 +331,15 @@ _p("C08", modules=["quic_crypto_unbounded", "prefix", "framing", "framing_unboun
 
 
 _p("C12", modules=["container", "container_unbounded", "main_run", "packet_c"], level="other",
-   technique="contract-based deductive verification: unbounded loop contract for Reader.__iter__ over a ghost block list; Reader.__init__ (section header, interface options) checked "
-             "exhaustively within a stated bound over a byte-level file model; dpkt block classes as assumed records",
+   technique="contract-based deductive verification: unbounded loop contracts for Reader.__iter__ (ghost block list) and Reader.__init__ (search for the first interface description over any "
+             "number of blocks; option scan over any number of options); a byte-level file model within a stated bound as cross-check; dpkt block classes as assumed records",
    level_text="UNBOUNDED (container.unbounded.iter: a file of ANY number of blocks, both byte orders): per block, Reader.__iter__ stands at the block's offset, yields exactly one "
               "(if_tsoffset + ((ts_high << 32) | ts_low) / divisor, packet data) for an Enhanced Packet or obsolete Packet block, exactly one (-1, secrets) for a decryption-secrets block "
               "wherever it sits, nothing for any other block, then stands at the next block; iteration ends only at the end of the file. "
-              "BOUNDED (one section, one interface, <= 2 blocks before and <= 3 after the interface description; block sizes, contents, field values, option values symbolic; "
+              "UNBOUNDED (container.unbounded.init): Reader.__init__ skips ANY number of non-interface blocks, decodes exactly the first Interface Description Block in the section's byte "
+              "order, and over ANY number of its options leaves divisor = 10^6 / 10^v / 2^(v & 0x7f) of the LAST if_tsresol option and offset = 0 / signed 64-bit value of the LAST "
+              "if_tsoffset option (ghost fold, defaults pinned by the invariant at loop entry). "
+              "BOUNDED cross-check (one section, one interface, <= 2 blocks before and <= 3 after the interface description; block sizes, contents, field values, option values symbolic; "
               "both byte orders): tlexport.dpkt_dsb.Reader.__init__ and __iter__ executed from their real ASTs over a byte-level file yield, in file order, one item per packet "
               "block (EPB and obsolete PB) with timestamp if_tsoffset + ((ts_high << 32) | ts_low) / divisor - divisor 10^v, or 2^(v & 0x7f) when the MSB of if_tsresol is set, "
               "default 10^6 - and the block's packet data, one (-1, secrets) per decryption-secrets block WHEREVER it sits (also before the interface description), and nothing for "
